@@ -11,6 +11,8 @@ import (
 	"fmt"
 	"io"
 	"net"
+	"runtime"
+	"strings"
 	"time"
 
 	"github.com/bokysan/socketace/v2/internal/client/listener"
@@ -25,7 +27,7 @@ type cfgGetter struct{ m cert.TlsConfig }
 func (c cfgGetter) CertManager() cert.TlsConfig { return c.m }
 
 func listenerWiringModes() []string {
-	return []string{"two-at-once", "second-while-first-idle", "close-one-keep-other", "sequential-reuse"}
+	return []string{"two-at-once", "second-while-first-idle", "close-one-keep-other", "sequential-reuse", "bursts", "bursts-one-processor"}
 }
 
 func executeListenerWiring(mode string) (kind, detail string) {
@@ -84,6 +86,48 @@ func executeListenerWiring(mode string) (kind, detail string) {
 		}
 		if !bytes.Equal(got, reply) {
 			return "cross-talk|listener-wiring", "the local connection received bytes that are not its target's reply"
+		}
+		return "", ""
+	}
+	if strings.HasPrefix(mode, "bursts") {
+		// local applications connecting in the same instant, 10 rounds of 3: the accept loop takes
+		// the next connection while the handler of the previous one may not have started yet
+		// (with one processor it certainly has not)
+		if mode == "bursts-one-processor" {
+			defer runtime.GOMAXPROCS(runtime.GOMAXPROCS(1))
+		}
+		warm, err := dial()
+		if err != nil {
+			return "inconclusive", "dial: " + err.Error()
+		}
+		defer warm.Close()
+		if k, d := echo(warm, 0x21, 10); k != "" {
+			return k, mode + " (warm-up): " + d
+		}
+		for round := 0; round < 10; round++ {
+			type res struct{ k, d string }
+			ch := make(chan res, 3)
+			start := make(chan struct{})
+			for j := 0; j < 3; j++ {
+				tag := byte(0x30 + 6*round + 2*j)
+				go func() {
+					<-start
+					c, err := dial()
+					if err != nil {
+						ch <- res{"inconclusive", "dial: " + err.Error()}
+						return
+					}
+					defer c.Close()
+					k, d := echo(c, tag, 1472)
+					ch <- res{k, d}
+				}()
+			}
+			close(start)
+			for j := 0; j < 3; j++ {
+				if r := <-ch; r.k != "" {
+					return r.k, fmt.Sprintf("%s round %d: %s", mode, round, r.d)
+				}
+			}
 		}
 		return "", ""
 	}
